@@ -8,6 +8,7 @@ import gens
 FAMILIES = ['mixture', 'component']
 BRIDGES = ['br_act_', 'br_pp_', 'br_vp_', 'br_to_molar_']
 PROPS_V = 'Props/C04.v'
+PROPS_EXTRA = ['Props/C04w.v']     # refutation witness (interval arithmetic): kernel-checked by coqc, not re-checked by coqchk
 EXTRA_TARGETS = ['Model/NumCheck.vo']
 BUDGET = {'quick': 1500, 'thorough': 30000}
 ORACLE_RULE = ('8 built-in + synthetic mixtures (NRTL with one/two alphas, with/without a12,a21, zero parameters; UNIQUAC) x mole '
